@@ -337,7 +337,11 @@ void tokens_prune(token * first, token * last) {
 	if (prev != NULL) {
 		prev->next = next;
 
-		fix_token_chain_tail(prev);
+		if (next == NULL) {
+			// The pruned tokens ended the chain -- only then is there a new tail
+			// (walking the whole chain for every prune is quadratic)
+			fix_token_chain_tail(prev);
+		}
 	}
 
 	if (next != NULL) {
